@@ -152,6 +152,9 @@ class CfgOp(Op):
                     out.value = list(edge_view(w, r))
                 elif m in ("iter", "out_edges", "in_edges", "or", "and", "sub", "xor"):
                     out.value = _fix(canon_edges(w, r))
+                    if m in ("or", "and", "sub", "xor") and isinstance(r, set):
+                        r.clear()  # the returned set is the caller's
+                        w.counters["probe:returned_value_scribbled"] += 1
                 else:
                     out.value = r
         return out
@@ -419,6 +422,15 @@ def inv_c19(w):
             w.violate(("C19",), "c19:overlong", "%s stores %d bytes but size is %d" % (bl, len(B.contents), B.size))
         if bytes(B.contents) != bytes(n.a["contents"]) or B.size != n.a["size"]:
             w.violate(("C19",), "c19:model", "%s: contents/size %r/%d, byte-array model %r/%d" % (bl, bytes(B.contents), B.size, bytes(n.a["contents"]), n.a["size"]))
+    # ... and whatever else a section lists (an interval whose construction was REJECTED must not
+    # have stayed behind in the section it was asked to join)
+    for sl in w.m.by_kind("sec"):
+        S = w.objs.get(sl)
+        if S is None:
+            continue
+        for B in S.byte_intervals:
+            if len(B.contents) > B.size:
+                w.violate(("C19",), "c19:overlong", "%s lists an interval (%s) that stores %d bytes but has size %d" % (sl, w.L(B), len(B.contents), B.size))
     for kl in w.m.by_kind("cb", "db"):
         K = w.objs[kl]
         I = K.byte_interval
